@@ -1091,6 +1091,10 @@ static void run_line(char *line)
 		mkdirs_for(p);
 		if (!strcmp(w[2], "dir")) {
 			mkdir(p, 0777);
+		} else if (!strcmp(w[2], "unreadable")) {
+			/* opens as a regular file, the first read fails (EIO) */
+			if (symlink("/proc/self/mem", p) != 0)
+				fputs("I symlink-failed\n", obs);
 		} else {
 			FILE *f = fopen(p, "w");
 
